@@ -2,7 +2,7 @@
     of the library as a function from a list of byte strings to a result
     class and a list of byte strings (the projected observables).  The Go
     harness implements the same table on top of the real code. *)
-From DV Require Import Base.Bytes Label.Model V4.Model V4.Accessors V4.Builders V6.Model V6.Dump V6.Relay Raw.Model.
+From DV Require Import Base.Bytes Label.Model V4.Model V4.Accessors V4.Builders V6.Model V6.Dump V6.Relay Raw.Model Client.Call Client.Routing Client.Macro.
 
 
 (** entry 1: rfc1035label.FromBytes(b) -> Labels *)
@@ -240,6 +240,41 @@ Definition e_raw_read (args : list bytes) : res (list bytes) :=
   | _ => Err
   end.
 
+(** * timed client call (entry 70): args = timeout (ms, 4 octets), tries (1 octet), cancel instant (4 octets or empty),
+      close instant (4 octets or empty), then one 5-octet argument per delivery: instant (ms) ++ accepted flag *)
+Definition z_of_arg (b : bytes) : Z := Z.of_N (n_of_be b).
+Definition opt_time (b : bytes) : option Z := match b with [] => None | _ => Some (z_of_arg b) end.
+Definition delivery_of_arg (b : bytes) : Z * bool :=
+  (z_of_arg (firstn 4 b), match skipn 4 b with [x01] => true | _ => false end).
+Definition e_timed_call (args : list bytes) : res (list bytes) :=
+  match args with
+  | tau :: tries :: cancel :: close :: ds =>
+    let r := run_call false (N.to_nat (n_of_be tries)) 0 (z_of_arg tau) (opt_time cancel) (opt_time close)
+                             (map delivery_of_arg ds) in
+    Ok (map (fun t => be32 (Z.to_N t)) (transmissions r)
+        ++ [[match result r with Got => x01 | NoResponse => x02 | CtxError => x03 end]; be32 (Z.to_N (end_time r))])
+  | _ => Err
+  end.
+
+(** * concurrent calls on one client (entries 72 nclient4, 73 nclient6): macro-step routing *)
+Definition mevent_of_arg (b : bytes) : option mevent :=
+  match b with
+  | [k; j] => if (bnat k =? 0)%nat then Some (MStart (bnat j)) else if (bnat k =? 2)%nat then Some (MCancel (bnat j)) else None
+  | [_; x; p; kind] => Some (MInject (bnat x) (bnat p) (bnat kind))
+  | _ => None
+  end.
+Fixpoint mevents_of_args (a : list bytes) : list mevent :=
+  match a with [] => [] | b :: r => match mevent_of_arg b with Some e => e :: mevents_of_args r | None => mevents_of_args r end end.
+Definition e_routing (args : list bytes) : res (list bytes) :=
+  match args with
+  | xids :: ths :: evs =>
+    let cs := map (fun xt => mkCall (bnat (fst xt)) (bnat (snd xt)) 0 0 None) (combine xids ths) in
+    let m := macro_run cs (mevents_of_args evs) in
+    Ok (flat_map (fun c => [[n2b (N.of_nat (if (c_status c =? 10)%nat then 4 else c_status c))];
+                            if (c_status c =? 1)%nat then [n2b (N.of_nat (c_payload c))] else []]) (calls m))
+  | _ => Err
+  end.
+
 Definition run (entry : N) (args : list bytes) : res (list bytes) :=
   match entry with
   | 1 => e_label_from args
@@ -256,6 +291,10 @@ Definition run (entry : N) (args : list bytes) : res (list bytes) :=
   | 40 => e_v4_build args
   | 50 => e_v6_encap args
   | 60 => e_raw_write args
+  | 70 => e_timed_call args
+  | 71 => e_timed_call args
+  | 72 => e_routing args
+  | 73 => e_routing args
   | 61 => e_raw_read args
   | 51 => e_v6_decap args
   | 52 => e_v6_inner args
